@@ -377,6 +377,7 @@ func (d doubleQuotes) String() string {
 // Loosely based on Pratt parser explained in this article: https://matklad.github.io/2020/04/13/simple-but-powerful-pratt-parsing.html
 func (p *Parser) term(maxPriority Integer) (Term, error) {
 	var lhs Term
+	var lhsPriority Integer // the priority of lhs: that of its principal functor if it's an operator, 0 otherwise.
 	switch op, err := p.prefix(maxPriority); err {
 	case nil:
 		_, rbp := op.bindingPriorities()
@@ -386,6 +387,7 @@ func (p *Parser) term(maxPriority Integer) (Term, error) {
 			return p.term0(maxPriority)
 		}
 		lhs = op.name.Apply(t)
+		lhsPriority = op.priority
 	case errNoOp:
 		lhs, err = p.term0(maxPriority)
 		if err != nil {
@@ -400,6 +402,13 @@ func (p *Parser) term(maxPriority Integer) (Term, error) {
 		if err != nil {
 			break
 		}
+		// The left operand is what has been read so far. It must not exceed the left binding priority: 1 = 2 = 3 is not
+		// (1 = 2) = 3.
+		if lbp, _ := op.bindingPriorities(); lhsPriority > lbp {
+			p.backup()
+			break
+		}
+		lhsPriority = op.priority
 		switch _, rbp := op.bindingPriorities(); {
 		case rbp > 1200:
 			lhs = op.name.Apply(lhs)
@@ -463,15 +472,17 @@ func (p *Parser) infix(maxPriority Integer) (operator, error) {
 		return operator{}, errNoOp
 	}
 
+	// The term the operator makes is of the operator's priority, which must not exceed maxPriority either:
+	// with op(699, xfy, &&), a && b = c is (a && b) = c. The right operand of && can't be b = c, a term of priority 700.
 	if op := p.operators[a][operatorClassInfix]; op != (operator{}) {
 		l, _ := op.bindingPriorities()
-		if l <= maxPriority {
+		if l <= maxPriority && op.priority <= maxPriority {
 			return op, nil
 		}
 	}
 	if op := p.operators[a][operatorClassPostfix]; op != (operator{}) {
 		l, _ := op.bindingPriorities()
-		if l <= maxPriority {
+		if l <= maxPriority && op.priority <= maxPriority {
 			return op, nil
 		}
 	}
